@@ -215,6 +215,9 @@ BENIGN = [
     ('benign-runner-sleeps-in-two-halves', ['C20'], 'sismic/runner/runner.py',
      "            time.sleep(max(0, self.interval - elapsed))",
      "            time.sleep(max(0, self.interval - elapsed) / 2)\n            time.sleep(max(0, self.interval - elapsed) / 2)"),
+    ('benign-pause-takes-a-lock-of-its-own', ['C20'], 'sismic/runner/runner.py',
+     "        self._unpaused.clear()",
+     "        with threading.Lock():\n            with threading.RLock():\n                self._unpaused.clear()"),
     ('benign-clock-folds-elapsed-on-every-read-free-op', ['C14'], 'sismic/clock/clock.py',
      "        if not self._play:\n            self._base = time()\n            self._play = True",
      "        if not self._play:\n            self._time += 0\n            self._base = time()\n            self._play = True"),
